@@ -184,29 +184,45 @@ def PDict.has (d : PDict α) (k : String) : Bool := d.any (fun kv => kv.1 == k)
 def sersicOf (d : PDict α) (flux rEff n ellip : α) : SersicP α :=
   ⟨d.get "xc", d.get "yc", flux, rEff, n, ellip, d.get "theta"⟩
 
-/-- `profile_func_dict[profile_type](params)` -/
-def Renderer.profile (R : Renderer α) (ptype : String) (d : PDict α) : Triple α :=
-  if ptype == "sersic" then
-    R.sersic (sersicOf d (d.get "flux") (d.get "r_eff") (d.get "n") (d.get "ellip"))
-  else if ptype == "exp" then
-    R.sersic (sersicOf d (d.get "flux") (d.get "r_eff") one (d.get "ellip"))
-  else if ptype == "dev" then
-    R.sersic (sersicOf d (d.get "flux") (d.get "r_eff") ((4 : Nat) : α) (d.get "ellip"))
-  else if ptype == "pointsource" then
-    R.pointsource (d.get "xc") (d.get "yc") (d.get "flux")
-  else if ptype == "doublesersic" then
+/-- the seven profile types -/
+inductive PType where
+  | sersic | doublesersic | sersicExp | sersicPointsource | pointsource | exp | dev
+deriving Repr, DecidableEq
+
+def PType.all : List PType :=
+  [.sersic, .doublesersic, .sersicExp, .sersicPointsource, .pointsource, .exp, .dev]
+
+def PType.pyName : PType → String
+  | .sersic => "sersic" | .doublesersic => "doublesersic" | .sersicExp => "sersic_exp"
+  | .sersicPointsource => "sersic_pointsource" | .pointsource => "pointsource" | .exp => "exp" | .dev => "dev"
+
+def parsePType (s : String) : Option PType := PType.all.find? fun t => t.pyName == s
+
+/-- `render_<type>(params)` -/
+def Renderer.profileOf (R : Renderer α) (t : PType) (d : PDict α) : Triple α :=
+  match t with
+  | .sersic => R.sersic (sersicOf d (d.get "flux") (d.get "r_eff") (d.get "n") (d.get "ellip"))
+  | .exp => R.sersic (sersicOf d (d.get "flux") (d.get "r_eff") one (d.get "ellip"))
+  | .dev => R.sersic (sersicOf d (d.get "flux") (d.get "r_eff") ((4 : Nat) : α) (d.get "ellip"))
+  | .pointsource => R.pointsource (d.get "xc") (d.get "yc") (d.get "flux")
+  | .doublesersic =>
     Triple.add
       (R.sersic (sersicOf d (d.get "flux" * d.get "f_1") (d.get "r_eff_1") (d.get "n_1") (d.get "ellip_1")))
       (R.sersic (sersicOf d (d.get "flux" * (one - d.get "f_1")) (d.get "r_eff_2") (d.get "n_2") (d.get "ellip_2")))
-  else if ptype == "sersic_exp" then
+  | .sersicExp =>
     Triple.add
       (R.sersic (sersicOf d (d.get "flux" * d.get "f_1") (d.get "r_eff_1") (d.get "n") (d.get "ellip_1")))
       (R.sersic (sersicOf d (d.get "flux" * (one - d.get "f_1")) (d.get "r_eff_2") one (d.get "ellip_2")))
-  else if ptype == "sersic_pointsource" then
+  | .sersicPointsource =>
     Triple.add
       (R.sersic (sersicOf d ((one - d.get "f_ps") * d.get "flux") (d.get "r_eff") (d.get "n") (d.get "ellip")))
       (R.pointsource (d.get "xc") (d.get "yc") (d.get "f_ps" * d.get "flux"))
-  else Triple.zero
+
+/-- `profile_func_dict[profile_type](params)`; unknown type names are rejected upstream -/
+def Renderer.profile (R : Renderer α) (ptype : String) (d : PDict α) : Triple α :=
+  match parsePType ptype with
+  | some t => R.profileOf t d
+  | none => Triple.zero
 
 /-- `k.replace(suffix, "")` on dictionary keys -/
 def stripSuffix (suffix : String) (d : PDict α) : PDict α :=
